@@ -351,6 +351,15 @@ func FromChannel[T any](in <-chan T) Observable[T] {
 
 		go recoverUnhandledError(func() {
 			for {
+				// select picks at random among ready cases: without this check a
+				// channel that always has a value ready keeps being drained (and its
+				// values dropped) for a while after the unsubscription
+				select {
+				case <-done:
+					return
+				default:
+				}
+
 				select {
 				case item, ok := <-in:
 					if !ok {
